@@ -8,6 +8,7 @@ interval arithmetic: the C06 model and its soundness theorems (used, not restate
 -/
 import WuffsVerif.Proof.WCoreBounds
 import WuffsVerif.Proof.WCoreStmt
+import WuffsVerif.Proof.WCoreNoRec
 import WuffsVerif.Gen.C01_Tables
 
 namespace WuffsVerif.Props.C01
@@ -179,6 +180,34 @@ theorem mod_shift_left_witness :
     binBounds [] .modshl (.var "x" ⟨.u8, none, none⟩) (mkIR 128 255) (.const 1) (mkIR 1 1)
       = some (mkIR 0 255) := by
   decide
+
+/-! ## No recursion (`checkNoRecursiveFuncs`) -/
+
+open WuffsVerif.WCore.NoRec WuffsVerif.Proof.WCoreNoRec in
+/--
+**no_recursion**: if the model of `checkNoRecursiveFuncs` (depth-first search with
+temporary / permanent marks over "calls this.foo", every function of the package
+as a root) accepts a call graph, then no function can reach itself through one or
+more calls: the call graph is acyclic, so running the program needs no more stack
+frames than there are functions.
+-/
+theorem no_recursion (g : Graph) (h : accepts g = true) : ∀ n, ¬ Reach g n n := by
+  intro n hr
+  unfold accepts at h
+  cases hv : visitAll g (fuelFor g) (List.range g.length) [] with
+  | none => simp [hv] at h
+  | some P =>
+    obtain ⟨hT, hall, _⟩ := visitAll_spec g (fuelFor g) _ _ _ (topo_nil g) hv
+    by_cases hn : n < g.length
+    · have hmem : n ∈ P := hall n (List.mem_range.2 hn)
+      obtain ⟨a, b, hab⟩ := List.append_of_mem hmem
+      exact no_cycle_in_topo hT hr b.length a b hab (Nat.le_refl _)
+    · exact reach_has_callee hr (callees_out_of_range (Nat.le_of_not_lt hn))
+
+open WuffsVerif.WCore.NoRec in
+/-- non-vacuity: a diamond is accepted, a 3-cycle and a self-call are rejected -/
+example : accepts [[1, 2], [3], [3], []] = true ∧ accepts [[1], [2], [0]] = false ∧
+    accepts [[], [1]] = false := by decide
 
 /-
 -- OPEN: the full-strength statement of C01 (DESIGN.md §C01):
